@@ -397,6 +397,7 @@ def plan(tier, seed):
 
 DIRECTED_QUERIES = [
     "$[?@.a =~ /a{99999999999}/]", "$[?match(@.a, 'a{99999999999}')]", "$[?search(@.a, '(?a)(?u)a')]", "$[?match(@.a, @.b)]", "$[?@.a =~ /(?a)(?u)a/]", "$[?@.a =~ /a{2,1}/]", "$[?match(@.a, '[z-a]')]", "$[?search(@.a, '(?P<n>a)(?P<n>b)')]",
+    "$[" + "9" * 4300 + "]", "$[:" + "9" * 4300 + "]", "$[?@.a == " + "9" * 4300 + "]", "$[?@[-" + "9" * 4300 + "]]", "$[?@.a == 1e" + "9" * 4300 + "]", "$[" + "9" * 4299 + ":]",
     "$[" + "1" * 4301 + "]", "$[:" + "1" * 4301 + "]", "$[?@.a == " + "7" * 4301 + "]", "$[?@.a == " + "7" * 400 + ".5]", "$[?@.a == 1e" + "9" * 4301 + "]", "$[?@[" + "1" * 4301 + "]]",
     "$[1e2]", "$[1e400]", "$[?@.a == 1e400]", "$[?@.a == 1.0e400]", "$[?@.a == -1e400]", "$[?@.a =~ /(/]", "$[?@.a =~ /a\\/b/]", "$[?@.a =~ /[/]", "$[?1 in 'abc']", "$[?@ in 'abc']",
     "$[?count(@) == 1]", "$[?value(@) == 1]", "$[?length(@) == 1]", "$[-:]", "$[:-]", "$[::-]", "$[+1]", "$[1:+2]", "$[?@.a == +1]", "$[?@.a == -]", "$[?@ == 1e]", "$[?@ == 1e+]", "$[?@ == .5]", "$[?@ == 1.]",
@@ -588,7 +589,8 @@ def run_workload(spec, ctx):
                 query_case(ctx, text.replace("%s", q_), ROOT_DOCS + [[{"a": 1, "b": [1]}, {"a": {"a": 2}}]], options="reentrant")
         for text in DIRECTED_QUERIES:
             query_case(ctx, text, ROOT_DOCS + [[{"a": v, "b": w} for v in (1, "x", None, [1], {"k": 1}, True, 1.5, "abc") for w in ("abc", [1], {"x": 1}, 2)]])
-        for text in ("/" + "1" * 4301, "/a/-" + "1" * 4301, "0+" + "1" * 4301, "1" * 4301, "1" * 4301 + "#", "/#" + "1" * 4301, "/#abc", "/a\\", "/\\u00e9", "/\\ud83d", "/\\", "\\", "/%", "/%zz", "/~", "/~2", "a", " /a", "/" + "9" * 30, "/-" + "9" * 30, "/#", "/#-1", "/#1e2", "/a/#", "0#", "0", "1#", "0+1", "0-1", "0+10", "0+99999999999999999999999", "/\x00", "/퟿"):
+        for text in ("0+" + "9" * 4300, "0+" + "9" * 4300 + "#", "1+" + "9" * 4300 + "/x", "0-" + "9" * 4300, "0+" + "9" * 4299, "0+" + "9" * 4299 + "#", "0+" + "1" * 4300, "9" * 4300, "9" * 4300 + "#", "/" + "9" * 4300, "/a/" + "9" * 4300, "/#" + "9" * 4300, "/-" + "9" * 4300,
+                     "/" + "1" * 4301, "/a/-" + "1" * 4301, "0+" + "1" * 4301, "1" * 4301, "1" * 4301 + "#", "/#" + "1" * 4301, "/#abc", "/a\\", "/\\u00e9", "/\\ud83d", "/\\", "\\", "/%", "/%zz", "/~", "/~2", "a", " /a", "/" + "9" * 30, "/-" + "9" * 30, "/#", "/#-1", "/#1e2", "/a/#", "0#", "0", "1#", "0+1", "0-1", "0+10", "0+99999999999999999999999", "/\x00", "/퟿"):
             pointer_case(ctx, text, ROOT_DOCS + [{"a": [1, 2], "#abc": 1, "é": 2}])
         for ops in ([{"op": "remove", "path": "/1"}], [{"op": "move", "from": "/a", "path": "/b/-"}], [{"op": "copy", "from": "/a", "path": "/b/-"}], [{"op": "add", "path": "/b/1e0", "value": 1}], [{"op": "add", "path": "/a\\", "value": 1}],
                     [{"op": "add", "path": "a", "value": 1}], [{"op": "test", "path": "/zz/zz", "value": 1}], [{"op": "move", "from": "/b/5", "path": "/a"}], [{"op": "replace", "path": "/b/-", "value": 1}], [{"op": "remove", "path": "/b/-"}],
